@@ -42,12 +42,13 @@ def cost_specs() -> Dict[str, Any]:
 
 
 def pit_applicable(metric: str, arch) -> bool:
-    return metric in PIT_METRICS and (metric != "gap8_latency" or arch["dim"] == 2)
+    # gap8_latency has no Conv1d model (such layers cost 0) but it models the Linear layers of a 1-D network
+    return metric in PIT_METRICS
 
 
 def model_unit(metric: str, arch) -> int:
     """CostDeps!Unit: channels in 1/10, 1-D kernels in 1/2400 (TLC checks the logged unit against the spec)."""
-    return (10 if metric == "gap8_latency" else 100) * (2400 if arch["dim"] == 1 else 1)
+    return 10 if metric == "gap8_latency" else 100 * (2400 if arch["dim"] == 1 else 1)
 
 
 def _finite(v: float) -> bool:
@@ -484,7 +485,8 @@ def run_probe(sc: Dict[str, Any]) -> Dict[str, Any]:
                           "flags": {"features": True, "rf": True, "dilation": True},
                           "ev": {"ok": False, "errk": "none", "err": ""}, "k10": 0, "c": -1, "fin": False,
                           "ng": {"none": 0, "zero": 0, "nonzero": 0, "nonfinite": 0}, "pert": [], "inp": [], "E": [],
-                          "pairs": [], "open": {"chk": False, "c": -1, "orig": -1}, "skip": "", "minprec": 99}
+                          "pairs": [], "open": {"chk": False, "c": -1, "orig": -1}, "skip": "", "minprec": 99,
+                          "dep": bool(sc.get("dep", False))}
     try:
         ctx: Ctx = {"pit": PitCtx, "mps": MpsCtx, "odimo": OdimoCtx, "sn": SnCtx}[method](sc)
     except Exception as e:
@@ -659,10 +661,175 @@ def run_probe(sc: Dict[str, Any]) -> Dict[str, Any]:
     return tr
 
 
+# ======================================================================================================
+# histories: the cost after a sequence of calls (switches, modes, forward, export, summary)
+# ======================================================================================================
+HIST_ARCH = {"dim": 1, "c0": 2, "sp": 8, "nodes": [
+    {"op": "conv", "ins": [0], "out": 4, "k": 5, "causal": True}, {"op": "relu", "ins": [1]},
+    {"op": "conv", "ins": [2], "out": 3, "k": 3, "causal": True, "bias": False}, {"op": "flat", "ins": [3]},
+    {"op": "lin", "ins": [4], "out": 2}]}
+_HIST_CACHE: Dict[str, Any] = {}
+
+
+def _hist_model(method: str, variant: str, seed: int):
+    """(model, input, nas parameters, value sets) - one per worker process; every history starts from reset()."""
+    torch = _torch()
+    key = f"{method}|{variant}|{seed}"
+    if key in _HIST_CACHE:
+        return _HIST_CACHE[key]
+    _HIST_CACHE.clear()
+    specs = cost_specs()
+    g = torch.Generator().manual_seed(seed + 5)
+    if method == "pit":
+        ref, model, x = _build_pit(norm_arch(HIST_ARCH), seed, ["ops", "params"])
+        torch.set_default_dtype(torch.float32)
+        metric = "ops"
+    elif method == "mps":
+        import torch.nn as nn
+        from plinio.methods.mps import MPS, MPSType, get_default_qinfo
+        torch.set_default_dtype(torch.float32)
+
+        class Net(nn.Module):
+            def __init__(self):
+                super().__init__()
+                self.c1 = nn.Conv2d(2, 4, 3, padding=1)
+                self.c2 = nn.Conv2d(4, 3, 3, padding=1)
+                self.pool = nn.AdaptiveAvgPool2d(1)
+                self.fc = nn.Linear(3, 2)
+
+            def forward(self, x):
+                x = torch.relu(self.c2(torch.relu(self.c1(x))))
+                return self.fc(torch.flatten(self.pool(x), 1))
+        net = Net().train()
+        with warnings.catch_warnings():
+            warnings.simplefilter("ignore")
+            model = MPS(net, cost={"params_bit": specs["params_bit"], "ops_bit": specs["ops_bit"]}, input_shape=(2, 6, 6),
+                        w_search_type=MPSType.PER_CHANNEL if variant == "channel" else MPSType.PER_LAYER,
+                        qinfo=get_default_qinfo(w_precision=(0, 2, 4, 8) if variant == "channel" else (2, 4, 8), a_precision=(4, 8)))
+        x = torch.rand((2, 2, 6, 6), generator=g)
+        metric = "ops_bit"
+    else:
+        from . import sn_gen
+        from plinio.methods import SuperNet
+        torch.set_default_dtype(torch.float32)
+        net = {"C": 3, "hw": 4, "gumbel": False, "hard0": False, "blocks": [{"kinds": ["layer", "seq", "id"], "uses": 1, "pool": False, "nest": False},
+                                                                              {"kinds": ["layer", "layer", "ubm"], "uses": 2, "pool": False, "nest": False}]}
+        user, x = sn_gen.build(net, seed)
+        user.train()
+        with warnings.catch_warnings():
+            warnings.simplefilter("ignore")
+            model = SuperNet(user, cost={"params": specs["params"], "ops": specs["ops"]}, input_example=x[:1])
+        metric = "ops"
+    nas = [p for _, p in model.named_nas_parameters() if p.numel() > 1 or method == "pit"]
+    vals = []
+    for ver in range(6):          # the parameter values of version `ver` ("after some optimiser steps"): non-trivial, nothing at 0 / 1
+        gv = torch.Generator().manual_seed(seed * 97 + ver)
+        if method == "pit":
+            vals.append([(torch.rand(p.shape, generator=gv) * 1.5 + 0.1) * (torch.randint(0, 2, p.shape, generator=gv) * 2 - 1) for p in nas])
+        else:
+            vals.append([torch.randn(p.shape, generator=gv) * 0.8 for p in nas])
+    _HIST_CACHE[key] = (model, x, nas, vals, metric)
+    return _HIST_CACHE[key]
+
+
+def run_hist(sc: Dict[str, Any]) -> Dict[str, Any]:
+    """scenario: {"kind": "hist", "method", "variant", "hist": [[a, b], ..], "seed"}"""
+    torch = _torch()
+    method = sc["method"]
+    model, x, nas, vals, metric = _hist_model(method, sc.get("variant", ""), sc.get("seed", 0))
+
+    def write(ver):
+        with torch.no_grad():
+            for p, v in zip(nas, vals[ver % len(vals)]):
+                p.copy_(v.to(p.dtype))
+
+    def fwd():
+        with warnings.catch_warnings():
+            warnings.simplefilter("ignore")
+            model(x)
+    # ---- the initial state of every history: all switches on, training mode, values of version 0, one training forward
+    model.train()
+    model.train_net_and_nas()
+    if method == "pit":
+        model.train_features, model.train_rf, model.train_dilation = True, True, True
+    if method == "sn":
+        model.train_selection = True
+    write(0)
+    fwd()
+    floats: List[List[Tuple[bool, float]]] = []
+
+    def reads():
+        out = []
+        for d in ((False, True) if method == "pit" else (False,)):
+            try:
+                if method == "pit":
+                    model.discrete_cost = d
+                out.append((d, float(model.get_cost(metric).detach())))
+            except Exception:
+                out.append((d, float("nan")))
+        if method == "pit":
+            model.discrete_cost = False
+        return out
+    ev = [{"a": "init", "b": "", "ok": True, "err": ""}]
+    floats.append(reads())
+    ver = 0
+    for a, b in sc["hist"]:
+        rec = {"a": a, "b": b, "ok": True, "err": ""}
+        try:
+            if a == "set":
+                ver += 1
+                write(ver)
+            elif a == "mode":
+                model.train(b == "train")
+            elif a == "fwd":
+                fwd()
+            elif a == "export":
+                with warnings.catch_warnings():
+                    warnings.simplefilter("ignore")
+                    model.export()
+            elif a == "summary":
+                model.summary()
+            elif a == "net_only":
+                model.train_net_only()
+            elif a == "nas_only":
+                model.train_nas_only()
+            elif a == "net_and_nas":
+                model.train_net_and_nas()
+            elif a == "feat":
+                if method == "pit":
+                    model.train_features = (b == "on")
+                else:
+                    model.train_selection = (b == "on")
+            elif a == "rf":
+                model.train_rf = (b == "on")
+            elif a == "dil":
+                model.train_dilation = (b == "on")
+            else:
+                raise tlc.MachineryError("unknown history action " + a)
+        except tlc.MachineryError:
+            raise
+        except Exception as e:          # a call that raises ends the history (whether it may raise is not C12's business)
+            rec.update(ok=False, err=f"{type(e).__name__}: {str(e)[:80]}")
+            ev.append(rec)
+            floats.append([])
+            break
+        ev.append(rec)
+        floats.append(reads())
+    allv = [v for rs in floats for _, v in rs]
+    fin = all(_finite(v) for v in allv)
+    mx = max([abs(v) for v in allv if _finite(v)] + [0.0])
+    k10 = 0 if mx == 0 else int(math.floor(math.log10(4.9e8 / mx)))
+    for rec, rs in zip(ev, floats):
+        rec["reads"] = [{"d": d, "c": int(round(v * 10.0 ** k10)) if _finite(v) else -1, "ok": _finite(v)} for d, v in rs]
+    return {"kind": "hist", "method": method, "variant": sc.get("variant", ""), "metric": metric, "k10": k10, "fin": fin, "ev": ev}
+
+
 def run(sc: Dict[str, Any]) -> Dict[str, Any]:
     _torch().manual_seed(1000003 * int(sc.get("seed", 0)) + 7)       # nothing may depend on which worker ran what before
     if sc["kind"] == "lat":
         return run_lat(sc)
+    if sc["kind"] == "hist":
+        return run_hist(sc)
     return run_probe(sc)
 
 
